@@ -315,7 +315,9 @@ def Sim.fwdIds (s : Sim) (line : Nat) (isTx : Bool) (key : String) (ids : List N
 /-- close notification for a forwarder's destination port delivered to the forwarding endpoint -/
 def Sim.fwdOnCloseRx (s : Sim) (line : Nat) (key : String) (isFinish : Bool) : Sim :=
   { s with fwds := s.fwds.map (fun x =>
-      if x.dst == key && x.closeRx.isNone then { x with closeRx := some (!isFinish, line) } else x) }
+      if x.dst != key then x else
+      let x := if x.closeRx.isNone then { x with closeRx := some (!isFinish, line) } else x
+      if isFinish && x.finRx.isNone then { x with finRx := some line } else x) }
 
 /-- the forwarding endpoint put `ReceiveClose` for a forwarder's source port on the wire:
 `forward_close_classified` (1) on the real trace -/
@@ -859,9 +861,9 @@ def Sim.fwdOnRet (s : Sim) (line : Nat) (k : String) (res : List String) : Sim :
       match x.closeRx with
       | none => s.fail "c11" line s!"forwarder {k} failed with 'closed' ({g}) but no close notification for {x.dst} was delivered to it"
       | some (graceful, _) =>
-        if graceful then
-          s.fail "c11" line s!"forwarder {k} failed with 'closed' ({g}) although {x.dst} was closed gracefully: it must keep relaying what was sent (graceful-close override)"
-        else if g == "gracefully=0" then s
+        if x.finRx.isNone then
+          s.fail "c11" line s!"forwarder {k} failed with 'closed' ({g}) although {x.dst} was only closed gracefully: it must keep relaying what was sent (graceful-close override)"
+        else if graceful || g == "gracefully=0" then s
         else s.fail "c11" line s!"forwarder {k} reports {g} but the receiver of {x.dst} was dropped"
     | ["err", "recv"] =>
       s.fail "c11" line s!"forwarder {k} failed with a receive error on a healthy connection"
@@ -1061,6 +1063,19 @@ def Sim.fwdAtSettle (s : Sim) (line : Nat) (creditLines : List (List String)) : 
       if x.closeTx.isNone && x.retLine.isNone && x.looksIdle && (pool.getD 0) ≥ 4 then
         s.fail "c11" line s!"forwarder {x.k}: a close notification for {x.dst} was delivered (line {cl}) and the forwarder is between two messages, yet it has not closed its source port {x.src}: the close does not reach the origin"
       else s
+    | none => s) s
+  |> fun s =>
+  -- a forwarder that still holds a received message and whose destination receiver was dropped cannot deliver it:
+  -- its send fails, `forward` returns, and the drop of its ports tells the origin
+  s.fwds.foldl (fun s x =>
+    match x.finRx with
+    | some fl =>
+      if x.retLine.isSome || x.allRelayed then s else
+      match x.closeRx with
+      | some (true, cl) =>
+        s.fail "c11" line s!"forwarder {x.k} has not returned although its destination receiver ({x.dst}) was dropped (line {fl}) after a graceful close (line {cl}) while it still holds a received message: its send waits for credits forever and the drop never reaches the origin"
+      | _ =>
+        s.fail "c11" line s!"forwarder {x.k} has not returned although its destination receiver ({x.dst}) was dropped (line {fl}) while it still holds a received message"
     | none => s) s
 
 structure RunAcc where
